@@ -1986,7 +1986,73 @@ pub fn tracker_faults(seed: u64) -> Plan {
     p
 }
 
+/// Silence on the upload side: a fast seeder gives the client everything within seconds; leechers
+/// (partial seeds at first, so that the client lets more than eleven of them in) fetch blocks from
+/// it. Either one or two of them fetch a single block and fall silent while unchoked, or ten stay
+/// busy and an eleventh, interested and silent, keeps getting the optimistic unchoke.
+fn keepalive_upload(seed: u64) -> Plan {
+    let mut r = Rng64::sub(seed, "keepalive-upload");
+    let n_p = r.range(10, 14);
+    let g = simple_geometry(64, 64 * n_p - r.range(0, 63));
+    let n = g.pieces();
+    let mut p = base_plan("keepalive", seed, g);
+    let mut s = base_peer(0, n);
+    s.unchoke = Unchoke::OnInterested(r.range(1, 50));
+    s.answer.delay_min = r.range(50, 150);
+    s.answer.delay_max = s.answer.delay_min;
+    s.keepalive = Some(50_000);
+    s.script.push(step(When::At(0), Act::Send(Msg::Interested)));
+    // it keeps talking, so that it is not what gets dropped
+    let mut t = 60_000;
+    while t < 600_000 {
+        s.script.push(step(When::At(t), Act::Send(Msg::Interested)));
+        t += r.range(60_000, 110_000);
+    }
+    p.peers.push(s);
+    let crowd = r.chance(1, 2);
+    let live = if crowd { 10 } else { 0 };
+    let quiet = if crowd { 1 } else { r.range(1, 2) as usize };
+    for j in 0..live + quiet {
+        let mut l = base_peer(1 + j, n);
+        l.essential = false;
+        l.has = vec![false; n];
+        l.has[r.usize_below(n)] = true;
+        // it unchokes the client, otherwise the client's have-announcements are held back and it
+        // never learns what it could ask for
+        l.unchoke = Unchoke::At(r.range(1, 300));
+        l.keepalive = if r.chance(1, 2) { Some(r.range(20_000, 110_000)) } else { None };
+        if j % 4 == 3 {
+            l.listed = false;
+            l.dial_in = vec![r.range(30, 250)];
+        }
+        // interested from the first moment (a peer that is drained and not interested is dropped)
+        l.script.push(step(When::At(0), Act::Send(Msg::Interested)));
+        l.max_accepts = 3;
+        if j < live {
+            let period = r.range(3_000, 8_000);
+            let mut t = r.range(3_000, 6_000);
+            while t < 600_000 {
+                l.script.push(step(When::At(t), Act::RequestOwned(1)));
+                t += period;
+            }
+        } else if !crowd {
+            // one block, then nothing more
+            l.script.push(step(When::AfterRx { kind: "Unchoke".into(), count: 1, plus: r.range(3_000, 6_000) }, Act::RequestOwned(1)));
+        }
+        p.peers.push(l);
+    }
+    let mut names: Vec<String> = p.peers.iter().filter(|x| x.listed).map(|x| x.name.clone()).collect();
+    names.rotate_left(1);
+    p.tracker.steps.push((1, TrackerStep::Good { peers: names, malformed: 0, wrong_id_for: vec![] }));
+    p.deadline_ms = r.range(420_000, 520_000);
+    p.stop_on_done = false;
+    p
+}
+
 pub fn keepalive(seed: u64) -> Plan {
+    if Rng64::sub(seed, "keepalive-variant").chance(1, 4) {
+        return keepalive_upload(seed);
+    }
     let mut r = Rng64::sub(seed, "keepalive");
     let g = simple_geometry(64, 64 * r.range(3, 12));
     let n = g.pieces();
